@@ -109,3 +109,14 @@ Fixpoint first_diff (i : nat) (a b : list Qc) : option nat :=
 (* -1 = agree; otherwise index of the first differing observable *)
 Definition check_case (ce : case * list Qc) : Z :=
   match first_diff 0 (run_case (fst ce)) (snd ce) with None => (-1)%Z | Some i => Z.of_nat i end.
+
+(* Runge-Kutta (non-IMEX) sweepers: c_QA holds the Butcher matrix in pySDC layout; observables = stage values *)
+Definition run_rk (C : case) : list Qc :=
+  let P := c_prob C in
+  let '(un, _) := rk_update 0 Qcplus Qcmult Qc_eqb (c_M C) (c_dt C) (c_t0 C) (nthq (c_nodes C)) (solve_of P) (feval_of P)
+                            1 (fun _ => mat (c_QA C)) (nodevec_of (c_u C))
+                            (fun m p => nthq (nth p (nth m (c_f C) []) [])) in
+  flat_map (fun m => map (un m) (seq 0 (p_dim P))) (seq 1 (c_M C)).
+
+Definition check_rk_case (ce : case * list Qc) : Z :=
+  match first_diff 0 (run_rk (fst ce)) (snd ce) with None => (-1)%Z | Some i => Z.of_nat i end.
